@@ -395,4 +395,9 @@ def bhClosedAt (p : List Rat) (v : Rat) : Rat :=
 
 def bhClosed (p : List Rat) : List Rat := p.map (bhClosedAt p)
 
+/-- the same list, computing every term once (what the driver evaluates) -/
+def bhClosedFast (p : List Rat) : List Rat :=
+  let terms := p.zip (p.map (bhTerm p))
+  p.map (fun v => ((terms.filter (fun e => v ≤ e.1)).map (·.2)).foldl min 1)
+
 end CnvVerif.Stats
